@@ -5,6 +5,7 @@
  "properties": {"C06": "contract", "C19": "safety"},
  "mode": "dfcc", "enforce": "mkarraytype/mkarraytype_contract",
  "kind": "proof",
+ "variants": {"base": ["-DV_HASBASE=1"], "nobase": ["-DV_HASBASE=0"]}, "canary_variant": "base",
  "cbmc_flags": ["--z3"], "retry_no_simplify": false,
  "timeout": 120,
  "expects": ["postcondition", "assigns"],
@@ -53,7 +54,7 @@ void
 harness(void)
 {
 	static struct type tb;
-	IN(bool, in_hasbase);
+	bool in_hasbase = V_HASBASE;     /* compile-time case split: with a symbolic base pointer Z3 does not finish either */
 	IN(u64, in_bsize);
 	IN(int, in_balign);
 	IN(int, in_qual);
